@@ -40,7 +40,7 @@ def labels(kind, size, lseed, name=""):
             v = np.linspace(lo + 1, hi - 1, size)
         return v[::-1].copy() if kind == "float_desc" else v
     if kind == "str":
-        pool = ["c", "a", "b", "zz", "B", "aa", "d", "e"]
+        pool = ["c", "a", "b", "zz", "B", "aa", "d", "e"] + [f"k{i:02d}" for i in range(max(0, size - 8))]
         return np.array(list(rng.permutation(pool)[:size]), dtype=object).astype(str)
     if kind == "datetime":
         days = rng.permutation(np.arange(0, 40))[:size]
